@@ -10,6 +10,8 @@
 (* untilCancelled) or none; and observation lines, which must hold of the   *)
 (* model state reached: `ret` (the call returned: which answer; contexts of *)
 (* the members whose answer main received; the winner's reader not closed), *)
+(* `readobs` (after the caller read a piece / everything: context of the   *)
+(* chosen member unchanged, its reader not closed),                        *)
 (* `closed` (after the caller's Close: reader closed once, the reader's own  *)
 (* Close error - if scripted - passed through, context cancelled either way),*)
 (* `final` (at quiescence: every reader, every context, the     *)
@@ -30,7 +32,7 @@ TInit == Init /\ l = 2
 
 ResetStep(e) ==
   /\ out' = Fn(e.out) /\ mode' = Fn(e.mode) /\ style' = e.style
-  /\ closeErr' = Fn(e.closeerr) /\ closeRet' = "-"
+  /\ closeErr' = Fn(e.closeerr) /\ closeRet' = "-" /\ readState' = "none"
   /\ parentCancelled' = FALSE
   /\ ctxCancelled' = [q \in M |-> FALSE]
   /\ doneClosed' = FALSE
@@ -47,14 +49,16 @@ ResetStep(e) ==
                                    [] self \in {20, 21} -> "SSelect"
                                    [] self = 1 -> "MSel1"
                                    [] self = 2 -> "CCancel"
-                                   [] self = 3 -> "CClose"]
+                                   [] self = 3 -> "CUse"]
 
 \* what the environment does
 Act(a) ==
   CASE a = "rel0" -> mode[0] = "normal" /\ member(10)
     [] a = "rel1" -> mode[1] = "normal" /\ member(11)
     [] a = "cancel" -> canceller
-    [] a = "close" -> closer
+    [] a = "close" -> closer /\ readerClosed'
+    [] a = "read" -> closer /\ readState' = "eof" /\ ~readerClosed'
+    [] a = "readpart" -> closer /\ readState' = "part" /\ ~readerClosed'
     [] OTHER -> FALSE
 \* what the system may do by itself
 Internal ==
@@ -74,11 +78,23 @@ RetObs(e) ==
   /\ \A k \in M : taken[k] => (e.ctxdone[k + 1] = CtxDone(k))
   \* the reader handed to the caller has not been closed by anybody else
   /\ (Winner # -1 /\ style = "reader") => e.closes[Winner + 1] = B2I(closed[Winner])
+\* after the caller has read from the returned reader (a piece, or all of it up to io.EOF):
+\* the read went well, nobody closed the member's reader, and the context given to the
+\* chosen member is as live as it was (WinnerCtxLiveUntilClose: reading is not closing)
+ReadObs(e) ==
+  /\ ~readerClosed /\ Winner # -1
+  /\ readState = (IF e.kind = "read" THEN "eof" ELSE "part")
+  /\ ~e.rderr /\ e.n = (IF e.kind = "read" THEN (IF e.partbefore THEN 3 ELSE 4) ELSE 1)
+  /\ e.closes[Winner + 1] = 0 /\ ~closed[Winner]
+  /\ e.ctxdone[Winner + 1] = CtxDone(Winner)
 \* right after the caller's Close: the member reader was closed once; its error, if it gave
 \* one, is what the caller got (errors.Is), no error otherwise; and whatever Close returned,
 \* the context given to the chosen member is cancelled now
 ClosedObs(e) ==
   /\ readerClosed
+  \* inside the member reader's Close its context was still live (unless the caller itself
+  \* had cancelled): the unifier cancels after closing, not before
+  /\ e.ctxinclose = B2I(parentCancelled)
   /\ e.closeerr = (closeRet = "err")
   /\ e.closeerr => e.closeerrfrom = Winner
   /\ e.closes[Winner + 1] = 1 /\ closed[Winner]
@@ -102,6 +118,7 @@ TNext ==
        [] e.op = "tau" -> Internal \/ UNCHANGED vars
        [] e.op = "ret" -> RetObs(e) /\ UNCHANGED vars
        [] e.op = "closed" -> ClosedObs(e) /\ UNCHANGED vars
+       [] e.op = "readobs" -> ReadObs(e) /\ UNCHANGED vars
        [] e.op = "final" -> FinalObs(e) /\ UNCHANGED vars
        [] OTHER -> FALSE
 TSpec == TInit /\ [][TNext]_<<vars, l>>
